@@ -31,18 +31,26 @@ impl<J: Task> ThreadPool<J> {
 
     #[inline]
     pub fn execute(&self, job: J) {
+        #[cfg(khttp_verif)]
+        crate::verif::emit(crate::verif::Event::Send);
         self.sender.as_ref().unwrap().send(job).unwrap();
     }
 }
 
 impl<J: Task> Drop for ThreadPool<J> {
     fn drop(&mut self) {
+        #[cfg(khttp_verif)]
+        crate::verif::emit(crate::verif::Event::DropSender);
         drop(self.sender.take()); // closes channel; workers exit
         for w in &mut self.workers {
             if let Some(t) = w.thread.take() {
                 t.join().unwrap();
+                #[cfg(khttp_verif)]
+                crate::verif::emit(crate::verif::Event::Joined);
             }
         }
+        #[cfg(khttp_verif)]
+        crate::verif::emit(crate::verif::Event::Returned);
     }
 }
 
@@ -53,9 +61,15 @@ struct Worker {
 impl Worker {
     fn new<J: Task>(receiver: Arc<Mutex<mpsc::Receiver<J>>>) -> Self {
         let thread = thread::spawn(move || {
+            #[cfg(khttp_verif)]
+            let wid = crate::verif::register_worker();
             loop {
                 let msg = {
                     let rx = receiver.lock().unwrap();
+                    #[cfg(khttp_verif)]
+                    crate::verif::emit(crate::verif::Event::Lock(wid));
+                    #[cfg(khttp_verif)]
+                    let _unlock = crate::verif::UnlockLog(wid);
                     rx.recv()
                 };
                 match msg {
@@ -63,9 +77,21 @@ impl Worker {
                     Err(_) => break, // sender dropped
                 }
             }
+            #[cfg(khttp_verif)]
+            crate::verif::emit(crate::verif::Event::Exit(wid));
         });
         Self {
             thread: Some(thread),
         }
     }
+}
+
+/// Verification entry point: run `jobs` on a pool of `size` workers and shut the pool down.
+#[cfg(khttp_verif)]
+pub fn verif_run_pool<J: Task>(size: usize, jobs: Vec<J>) {
+    let pool = ThreadPool::new(size);
+    for j in jobs {
+        pool.execute(j);
+    }
+    drop(pool);
 }
